@@ -24,7 +24,11 @@ method + path template only; a route that fits no class (or has no request in th
 Search queries: every listing route that takes q (batches v1 / v2 / UI, jobs of a batch v1 / v2, jobs of a job group v1 / v2,
 the UI batch page) is sent the query tables q_jobs_v1/v2, q_batches_v1/v2: no q, every state keyword (single- and multi-state:
 live, bad, done), every negation, attribute terms (k=v, has:k, job_id=), every operator of the v2 grammar per field, quoted /
-partial words, malformed terms, all ordered pairs over a 9-term alphabet and a few triples; plus recursive / paging parameters.
+partial words, malformed terms, all ordered pairs over a 9-term alphabet and a few triples; plus recursive.
+Paging: last_batch_id {0,1,3,5,8,9,100} x {no q, '', user, billing project, state} on the batch lists; last_job_id
+{0,1,2,4,8,100} x {no q, done, live, attribute} (+ recursive) on the job lists and the UI batch page; last_job_id x limit
+{1,2,10000 (max),0,10001,x} on jobs/resources; last_job_group_id {0,1,5} on the job-group lists; limit x
+last_completed_timestamp on batches/completed.
 Batches 1 and 8 (u2, bp2, never targets; ids below / above every target) each hold one job in each of the 8 job states and every batch / job carries attributes, so a
 listing that escapes its restriction shows rows.  Every returned row must belong to a batch the caller may read AND to the
 batch (and job group, directly or as descendant when recursive) named in the URL.  Quick tier: the search queries are sent
@@ -260,8 +264,6 @@ def world():
         A(('add_groups', 'u2', 1, [G(1, parent_abs=0)]))
         A(('add_jobs', 'u2', 1, [J(i, abs_group=0) for i in (1, 2, 3, 4)] + [J(i, group=1) for i in (5, 6, 7)] + [J(8, group=1, parents=[4])]))
         A(('commit_tail', 'u2', 1))
-        for jid, st in ZOO_STATES.items():
-            q("UPDATE jobs SET state = %s WHERE batch_id = %s AND job_id = %s", (st, ops.BID, jid))
         return ops.BID
 
     try:
@@ -297,6 +299,9 @@ def world():
     finally:
         ops.BID = saved_bid
     q("UPDATE batches SET deleted = 1 WHERE id = 4")
+    for b in (BAIT_LOW, BAIT_HIGH):   # (last, so that the seeding scheduler sweeps above cannot move them on)
+        for jid, st in ZOO_STATES.items():
+            q("UPDATE jobs SET state = %s WHERE batch_id = %s AND job_id = %s", (st, b, jid))
     w.run(_drain(w))
 
     truth = truth_from_tables(w)
